@@ -352,10 +352,58 @@ def gen_ops(rng, kn, n, depth=0):
     return ops
 
 
+def confusable_values(rng, n):
+    """Seeded values and their look-alikes: the same number in another type, its float neighbour, its
+    negation, a byte permutation, a value with the same str() / the same float() / the same int() -- so that
+    a key or a name derived from *any* lossy rendering of a value meets two values it confuses."""
+    import numpy
+
+    out = []
+    dts = ["float16", "float32", "float64"]
+    for _ in range(n):
+        dt = rng.choice(dts)
+        nbytes = numpy.dtype(dt).itemsize
+        raw = bytearray(rng.getrandbits(8) for _ in range(nbytes))
+        if rng.random() < 0.5:
+            raw[rng.randrange(nbytes)] = rng.choice([0x00, 0x01, 0x0F, 0x10, 0x11])
+        v = numpy.frombuffer(bytes(raw), dtype=dt)[0]
+        if v != v or abs(float(v)) == float("inf"):
+            continue
+        out.append(["np", dt, bytes(raw).hex()])
+        how = rng.choice(["swap", "other-type", "python", "neighbour", "negate", "nibble"])
+        if how == "swap" and nbytes > 1:
+            i, j = rng.sample(range(nbytes), 2)
+            raw2 = bytearray(raw)
+            raw2[i], raw2[j] = raw2[j], raw2[i]
+            out.append(["np", dt, bytes(raw2).hex()])
+        elif how == "nibble":
+            # 0x01 0x10 <-> 0x11 0x00 style regrouping of hex digits
+            raw2 = bytearray(raw)
+            i = rng.randrange(nbytes - 1) if nbytes > 1 else 0
+            pair = (raw[i] << 8) | raw[(i + 1) % nbytes]
+            pair = ((pair << 4) | (pair >> 12)) & 0xFFFF
+            raw2[i], raw2[(i + 1) % nbytes] = pair >> 8, pair & 0xFF
+            out.append(["np", dt, bytes(raw2).hex()])
+        elif how == "other-type":
+            dt2 = rng.choice([d for d in dts if d != dt])
+            with numpy.errstate(all="ignore"):
+                out.append(["np", dt2, numpy.dtype(dt2).type(v).tobytes().hex()])
+        elif how == "python":
+            out.append(_f(float(v)))
+            if float(v) == int(float(v)) and abs(float(v)) < 2**62:
+                out.append(["i", int(float(v))])
+        elif how == "neighbour":
+            w = numpy.nextafter(v, numpy.dtype(dt).type(numpy.inf))
+            out.append(["np", dt, w.tobytes().hex()])
+        else:
+            out.append(["np", dt, (-v).tobytes().hex()])
+    return out
+
+
 def make_case(seed, tier="quick"):
     kn_rng = stream(seed, "knobs")
     ops_rng = stream(seed, "ops")
-    full = value_pool()
+    full = value_pool() + confusable_values(stream(seed, "values"), 6)
     style = kn_rng.choice(["all", "zeros", "nonzero", "python-only", "numpy-only", "named"])
     if style == "zeros":
         pool = [v for v in full if v[0] != "s" and is_zero_value(decode_value(v))] + [["i", 1], _f(1.0)]
